@@ -2,6 +2,8 @@
 
 LAYER_DEFAULTS = {
     'tracer': {'quick': {'n': 60, 'size': 40, 'shards': 2}, 'thorough': {'n': 400, 'size': 120, 'shards': 16}},
+    'diff': {'quick': {'n': 250, 'size': 20, 'shards': 4}, 'thorough': {'n': 6000, 'size': 30, 'shards': 16}},
+    'calltracer': {'quick': {'n': 100, 'size': 10, 'shards': 2}, 'thorough': {'n': 2000, 'size': 10, 'shards': 16}},
     'frame': {'quick': {'n': 150, 'size': 10, 'shards': 2}, 'thorough': {'n': 3000, 'size': 10, 'shards': 16}},
     'cancun': {'quick': {'n': 150, 'size': 20, 'shards': 2}, 'thorough': {'n': 3000, 'size': 20, 'shards': 16}},
     'precompile': {'quick': {'n': 150, 'size': 20, 'shards': 2}, 'thorough': {'n': 3000, 'size': 20, 'shards': 16}},
@@ -45,7 +47,41 @@ def frame_prop(mods, extra_runs=(), partial=None):
         d['partial'] = partial
     return d
 
+TB_DIFF = ['go-ethereum v1.12.0 core/vm and eth/tracers (the module /repo itself depends on) run in the same process as the reference; '
+           'the inherited instruction semantics is not modelled: identity of every inherited declaration is a regenerated fact '
+           '(delta_is_modelled), behaviour is compared by differential execution']
+TB_M4 = ['tracers/native/call.go and call_flat.go are modelled by hand (Artela/Model/CallTracer.lean, logs not modelled); tied by feeding '
+         'callback streams generated from the call/Aspect tree grammar to the real tracers and comparing GetResult()']
+
 PROPS = {
+    'C01': {
+        'modules': ['Artela.Props.C01', 'Artela.Proofs.GenFacts'],
+        'runs': [{'layer': 'diff'}, {'layer': 'frame'}],
+        'trusted_base': TB_DIFF + TB_M5 + TB_GEN,
+        'assumptions': ['bytes 0xe0-0xe7 and calls to 0x64-0x66 are excluded (they are not standard); opcode NAMES of 0x5c-0x5e/0xb3/0xb4 differ (known finding D18)'],
+        'partial': 'inherited instruction bodies are identity-checked and differentially executed, not modelled; the proved part is the frame-layer refinement (unbound join points and the tracer are invisible)',
+    },
+    'C02': {
+        'modules': ['Artela.Props.C01', 'Artela.Props.C06', 'Artela.Proofs.GenFacts'],
+        'runs': [{'layer': 'diff'}],
+        'trusted_base': TB_DIFF + TB_M5 + TB_GEN,
+        'assumptions': ['gas schedule functions are inherited (identity table) and compared step by step, including a gas-limit sweep'],
+        'partial': 'as C01',
+    },
+    'C18': {
+        'modules': ['Artela.Props.C18', 'Artela.Proofs.GenFacts'],
+        'runs': [{'layer': 'diff'}, {'layer': 'calltracer'}, {'layer': 'frame'}],
+        'trusted_base': TB_DIFF + TB_M4 + TB_M5 + TB_GEN,
+        'assumptions': [],
+        'partial': 'as C01; withLog log collection of the call tracer is compared with upstream but not modelled',
+    },
+    'C19': {
+        'modules': ['Artela.Props.C19'],
+        'runs': [{'layer': 'calltracer'}],
+        'trusted_base': TB_M4,
+        'assumptions': ['streams are generated from the tree grammar (depth <= 5, width <= 4, 0-3 Aspects per join point, 0-2 calls per Aspect)'],
+        'partial': 'no-panic and per-event filing proved for all event sequences; exact rendering and flat invariants are checked against the generating tree on every run (S ctrender, S ctflatinv), not proved',
+    },
     'C04': frame_prop(['Artela.Props.C04']),
     'C05': frame_prop(['Artela.Props.C05']),
     'C06': frame_prop(['Artela.Props.C06']),
